@@ -509,6 +509,8 @@ def cli_corpus():
         c(mode="users", dur=d200, conc=2, bodyms=3, maxit=20, failevery=3, pushgw="ok", static=1),                  # what reaches the push gateway: counts and labels
         c(mode="constant", dur=hx("300ms"), conc=1, rate=hx("10/50ms"), dist=none, bodyms=30, igndrop=1, pushgw="fail1", static=1),
         c(mode="file", fdur=500, conc=2, bodyms=2, maxit=9, failevery=2, fstages="u:300:2", pushgw="ok", static=1),
+        c(mode="users", dur=d200, conc=1, bodyms=1, maxit=5, pushgw="ok", timestage="iteration", expectlimit=1),    # D23 (known finding): a timed stage named like the reserved label value
+        c(mode="users", dur=d200, conc=1, bodyms=1, maxit=5, pushgw="ok", timestage="checkout", expectlimit=1),     # ... any other stage name leaves the iteration series alone
         c(mode="users", dur=d200, conc=2, bodyms=3, pushgw="down", leakcheck=0),
         c(mode="users", dur=d200, conc=2, bodyms=3, maxit=12, failevery=4, pushgw="ok", pushurl="bare", static=1),   # PROMETHEUS_PUSH_GATEWAY=host:port
         c(mode="file", fdur=300, conc=1, bodyms=1, fstages="c:200:1/50ms", fpath="dir"),                              # the config path is a directory: refused, not a crash
